@@ -10,8 +10,11 @@ NAMES = ["fx_a", "fx_b", "db"]
 class File:
     def __init__(self, path, header, blocks):
         self.path, self.header, self.blocks, self.broken = path, header, list(blocks), False
+        self.blank = None
 
     def text(self):
+        if self.blank is not None:
+            return self.blank
         t = self.header + "\n" + "\n".join(self.blocks)
         if self.broken:
             t += "\ndef broken(:\n    pass\n"
@@ -60,14 +63,18 @@ def gen_history(rnd: random.Random, root="/vh"):
     for _ in range(nedits):
         p = rnd.choice(order)
         f = files[p]
-        kind = rnd.choice(["add_fixture", "remove", "rename", "move", "add_test", "break", "repair", "resend", "imports", "remove_all", "retarget"])
+        kind = rnd.choice(["add_fixture", "remove", "rename", "move", "add_test", "break", "repair", "resend", "imports", "remove_all", "retarget", "blank"])
         if kind == "retarget":
             p = sub + "/conftest.py"
             f = files[p]
         if f.broken and kind not in ("repair", "resend"):
             kind = rnd.choice(["repair", kind])
         tags.append("edit:" + kind)
-        if kind == "add_fixture":
+        f.blank = None
+        if kind == "blank":
+            # the whole buffer emptied (select all, delete), or only white space left
+            f.blank = rnd.choice(["", "\n", "   \n\t\n", "\n\n"])
+        elif kind == "add_fixture":
             n = rnd.choice(names + ["extra"])
             f.blocks.insert(rnd.randint(0, len(f.blocks)), fixture_block(rnd, n, [n] if rnd.random() < 0.3 else []))
         elif kind == "remove" and f.blocks:
